@@ -1,5 +1,60 @@
-import SemVerif.Spec.Preds
-import SemVerif.Inventory
-/-! # Property C04 — theorems (under construction) -/
+import SemVerif.Props.T2
+/-!
+# Property C04 — the emitted instruction stack is well-typed
+
+`typedStack` (Spec/Typed.lean) scans a function stack once, remembering the type each register
+was produced with and the value record of each declaration, and checks on every instruction that
+the recorded types are mutually consistent (operand against producer, both sides of operations and
+comparisons, call arguments against the recorded signature, let / assignment against the
+declaration, returns against the result type, constants and callees against the global tables of the
+same run).
+
+`C04_scan`: for every accepted program, every function and every instruction of its stack, every
+check passes — except the two checks that the recorded findings F8 (argument count) and F9 (type of
+a return nested in an if / loop body) can fail (`TyBad.known`).  The invariant is threaded through
+the T2 induction (`TOK` in `Trans`, `DRel`, `Quiet`), so it holds for every body, nesting depth and
+chain length.
+-/
 namespace SemVerif
+
+/-- **C04 (scan form)** — accepted programs: on every function stack the typed scan reports nothing
+but the checks F8 / F9 leave open -/
+theorem C04_scan (p : Program) (hnp : (run p).panic = none) (hacc : (run p).errors = []) :
+    ∀ fb ∈ p.fnDecls.zip (run p).roots,
+      ∀ pb ∈ typedGo (fun c => assocGet c.name (run p).consts == some c) (fun fd => assocGet fd.name (run p).funcs == some fd)
+          fb.1.result.toTy fb.2.context TyEnv.init 0,
+        ∃ i, fb.2.context[pb.1]? = some i ∧ pb.2.known i = true := by
+  have hrel := rel_run p
+  have hg := globRel_of_rel hrel
+  have hn := gnames_of_rel hrel
+  have hok := anaOK_of_no_panic p hnp
+  unfold run at hacc ⊢
+  dsimp only at hacc ⊢
+  rw [List.append_eq_nil_iff] at hacc
+  have hfl := flatten_eq_nil_mem hacc.2
+  rw [List.map_map, fns_eq_fnDecls]
+  intro fb hfb
+  obtain ⟨f, b⟩ := fb
+  have hf : f ∈ p.fnDecls := (List.of_mem_zip hfb).1
+  have hb : b = (functionBody (pass2 p (pass1 p GState.init)).globals f).root := by
+    have := List.of_mem_zip hfb
+    clear hfl hacc
+    generalize p.fnDecls = l at hfb
+    induction l with
+    | nil => simp at hfb
+    | cons x xs ih =>
+      simp only [List.map_cons, List.zip_cons_cons, List.mem_cons, Prod.mk.injEq] at hfb
+      rcases hfb with ⟨rfl, rfl⟩ | h
+      · rfl
+      · exact ih h
+  subst hb
+  unfold AnaOKB at hok
+  rw [List.all_eq_true] at hok
+  have he : (functionBody (pass2 p (pass1 p GState.init)).globals f).errors = [] := by
+    apply hfl
+    rw [List.mem_map]
+    exact ⟨functionBody (pass2 p (pass1 p GState.init)).globals f, by
+      rw [List.mem_map]; exact ⟨f, by rw [fns_eq_fnDecls]; exact hf, rfl⟩, rfl⟩
+  exact (T2_function hg hn f (hok f hf) he).2.2
+
 end SemVerif
